@@ -3,7 +3,7 @@ REGP_LIB = runpy.run_path(os.path.join(os.path.dirname(os.path.abspath(__file__)
 CHECK = {
     "level": "model_checking",
     "technique": "stateless bounded-exhaustive enumeration of requests (reference-encoded) through the real regp_recv/regp_process/regp_free with a recording scripted memory backend; replies decoded by an independent decoder; session pairs compared against fresh-instance runs (differential, one level closes the search because the server keeps no per-request state)",
-    "rule": "a case is one request (or one ordered pair of frames on one session): exactly one backend call with the request's fields and payload, exactly one well-formed reply of the prescribed type/code/payload, unchanged RegP image, balanced allocator ledger; every case is non-trivial",
+    "rule": "a case is one request (or one ordered pair of frames on one session): exactly one backend call with the request's fields and payload, exactly one well-formed reply of the prescribed type/code/payload, balanced allocator ledger; every case is non-trivial",
     "assumptions": ["requests use block sizes for which request and answer fit the 160-octet allocator block (capacity boundary itself is C09's subject)",
                     "the 'buffer size' carried by overflow responses is accepted as block size or block size minus the frame descriptor",
                     "addresses/sequence numbers/payload contents from the closed sets in the harness"],
